@@ -59,6 +59,26 @@ fact: Gen/ExecLayoutTwins.lean (go/extract/execlayouttwins.go, text/template/par
 generated!.gotpl, root_.gotpl, the ranges of `type ResolverRoot interface` per layout, the resolver interface headers,
 the templates that call `ec.resolvers`; follow_root_is_single_file_twin / resolver_calls_declared /
 resolver_root_entries_name_declared_interfaces (Props/C17Root.lean).
+
+What a schema file of a multi-file project contains (added for the miss C17-change9): one universe of definitions
+partitioned over files - a file with only interfaces / only unions / both, only enums / scalars, only directive
+definitions, only extensions, only a schema definition, only inputs / objects / one root, only unreferenced definitions,
+only a comment, nothing - x both exec layouts x flavours x resolver layouts x position in gqlgen.yml's list / glob x
+filename_template ("file contents" projects c17f*, go/harness/c17/filekinds.go, corpus/C17/filekinds.txt). Under
+follow-schema the set of `<name>.generated.go` files is compared with Model/Builds.lean. Regenerated fact:
+Gen/BuildGuards.lean (go/extract/buildguards.go, go/ast) = the statements of each pass of codegen.generatePerSchema that
+reach the build of a file, in source order; every_pass_reaches_a_build /
+generatePerSchema_never_dereferences_a_missing_build (Props/C17Files.lean) hold for EVERY distribution of definitions
+over files.
+
+How directive arguments are given at each use (added for the miss C17-change10): definition default none / value /
+`= null` x use omitted / value / `null` / single value for a list / `[]` / object literal with holes x 18 argument types
+x 11 locations (field, argument, input field, object, input object, interface, union, enum, enum value, scalar,
+interface field) x executable locations / skip_runtime / call_argument_directives_with_null ("directive argument"
+projects c17a*, go/harness/c17/dirargs.go, corpus/C17/dirargs.txt). Regenerated fact: Gen/DirArgRule.lean
+(go/extract/dirargrule.go, go/ast + text/template/parse) = ResolveArgs' nil decision, the FieldArgument getDirectives
+builds for a use, the declaring chain of implDirectives; passed_local_iff_declared /
+directive_closure_matches_effective_value (Props/C17DirArgs.lean).
 """
 import json
 import os
@@ -182,6 +202,35 @@ def classify(proj_dir, rc, err):
         shape.update({"class": "function-pair-over-pointer-to-slice", "binds_function_pair_over_pointer_to_slice": True})
         shape.pop("bound_go_types", None)
         return shape, head
+    follow = bool(re.search(r"^exec:\n(  [^\n]*\n)*?  layout: follow-schema", yml, re.M))
+    fk = read_filekinds(proj_dir)
+    if rc == 4 and "nil pointer dereference" in msg:
+        m = re.search(r"codegen\.(add(?:Objects|Inputs|Interfaces|ReferencedTypes))\(", err)
+        if m:
+            shape.update({"class": "per-schema-build-missing", "pass": m.group(1), "exec_layout": "follow-schema" if follow else "single-file"})
+            if fk:
+                # the files whose build that pass has to create: no object, no input (and no interface / union for the last pass)
+                late = [f[1] for f in fk["files"] if f[2][:2] == "00" and f[2] != "0000" and (m.group(1) != "addReferencedTypes" or f[2][2] == "0")]
+                shape["content_classes_created_by_that_pass"] = sorted(late)
+            return shape, "panic: nil pointer dereference in codegen.%s <- codegen.generatePerSchema (the build of a schema file is used before it exists)" % m.group(1)
+    m = re.search(r"undefined: (dirArg_\w+)|declared and not used: (dirArg_\w+)|(dirArg_\w+) declared and not used", msg)
+    if m and rc in (3, 6):
+        shape.update({"class": "directive-argument-local-mismatch", "kind": "call-names-an-undeclared-local" if m.group(1) else "declared-local-is-not-passed"})
+        da = read_dirargs(proj_dir)
+        if da:
+            shape["definition_default_and_use"] = sorted({".".join(x.split(".")[2:]) for x in da.get("shapes", "").split() if x.split(".")[1] != "multi"})[:40]
+        return shape, next((l for l in lines if "dirArg_" in l), head)
+    mw = r"_(query|mutation|subscription|field)Middleware"
+    if rc in (3, 6) and follow and re.search(r"(undefined: %s|ec\.%s undefined|undefined: dir_\w+_args|ec\.dir_\w+_args undefined)" % (mw, mw), msg):
+        exec_only = files_defining_only_executable_directives(proj_dir)
+        if exec_only:
+            shape.update({"class": "directive-functions-of-a-file-without-build", "exec_layout": "follow-schema",
+                          "executable_directive_defined_in_a_file_without_type_definitions": True})
+            return shape, next((l for l in lines if re.search(mw + "|dir_\\w+_args", l) and "undefined" in l), head)
+    if rc in (3, 6) and follow and re.search(mw + r" redeclared in this block", msg):
+        shape.update({"class": "operation-middleware-declared-twice", "exec_layout": "follow-schema",
+                      "executable_directives_of_one_location_defined_in_two_schema_files": executable_directive_files(proj_dir) >= 2})
+        return shape, next((l for l in lines if "redeclared" in l), head)
     m = re.search(r"pattern (\S+): invalid pattern syntax", msg)
     if m and rc in (3, 6):
         shape.update({"class": "embed-pattern-leaves-the-package", "pattern": m.group(1),
@@ -199,6 +248,60 @@ def classify(proj_dir, rc, err):
     return shape, head
 
 
+def read_filekinds(d):
+    """filekinds.tsv of a c17f project -> {meta…, files: [(file, content class, flags o/i/a/r)]} or None"""
+    txt = read(os.path.join(d, "filekinds.tsv"))
+    if not txt:
+        return None
+    out = {"files": []}
+    for l in txt.split("\n"):
+        f = l.split("\t")
+        if f[0] == "file" and len(f) >= 4:
+            out["files"].append((f[1], f[2], f[3]))
+        elif len(f) == 2:
+            out[f[0]] = f[1]
+    return out
+
+
+def read_dirargs(d):
+    txt = read(os.path.join(d, "dirargs.tsv"))
+    return dict(l.split("\t", 1) for l in txt.split("\n") if "\t" in l) if txt else None
+
+
+def schema_files(d):
+    return {f: read(os.path.join(d, f)) for f in sorted(os.listdir(d)) if f.endswith((".graphql", ".graphqls"))}
+
+
+def _exec_directives(text):
+    """names of the directives a schema text defines on an executable location, with those locations"""
+    text = re.sub(r'"""[\s\S]*?"""|"(?:\\.|[^"\\])*"|#[^\n]*', "", text)
+    out = []
+    for m in re.finditer(r"directive\s+@(\w+)[^@]*?\bon\b([\s|A-Z_]+)", text):
+        locs = set(re.findall(r"[A-Z_]+", m.group(2))) & {"QUERY", "MUTATION", "SUBSCRIPTION", "FIELD"}
+        if locs:
+            out.append((m.group(1), locs))
+    return out
+
+
+def files_defining_only_executable_directives(d):
+    """schema files that define a directive on QUERY / MUTATION / SUBSCRIPTION / FIELD and no type at all"""
+    out = []
+    for f, text in schema_files(d).items():
+        bare = re.sub(r'"""[\s\S]*?"""|"(?:\\.|[^"\\])*"|#[^\n]*', "", text)
+        if _exec_directives(text) and not re.search(r"^\s*(type|input|interface|union|enum|scalar)\s", bare, re.M):
+            out.append(f)
+    return out
+
+
+def executable_directive_files(d):
+    """the largest number of schema files that define a directive on one and the same executable location"""
+    per = Counter()
+    for f, text in schema_files(d).items():
+        for loc in set().union(*[l for _, l in _exec_directives(text)] or [set()]):
+            per[loc] += 1
+    return max(per.values()) if per else 0
+
+
 def run(ctx):
     import time
     t0 = time.time()
@@ -214,10 +317,13 @@ def run(ctx):
         "execution of bindings projects: resolvers are reflection-made (return a filled value / their argument / a field-wise copy of their input), the bound functions are exact round trips of a canonical text, so a response leaf shows which bound function was called and with which whole value",
     ]
     ctx.assumptions += [
+        "per-schema-file builds (Model/Builds.lean): a pass of generatePerSchema is the ORDER of its guard / create / load / use statements (Gen/BuildGuards.lean); what each use does with the build, map iteration order and the rendering of a build are not modelled; which definitions count as referenced types is decided by the harness for its own universe of definitions and tied by comparing the generated file set",
+        "directive arguments (Model/DirArgs.lean): values by provenance (nil / definition default / value of the use); the unmarshal call, the dumped literal and the directive function's parameter types are left to the Go compiler in the sweep",
         "derived package names (Model/PkgName.lean): the file system is an explicit input of the model (absent / entries with the package clause of each Go file); filepath.Abs / os.ReadDir / go/parser and Go's regexp class \\W are modelled, tied by -mode pkgnames on really created directories and by the package clauses of the generated layout projects",
     ]
-    ok_extract = ctx.extract("Keywords", "TypeRefRules", "FuncSyntaxArms", "PkgNameRules", "EmbedRule", "ExecLayoutTwins")
-    proved = ok_extract and ctx.prove(props=["GqlgenVerif.Props.C17", "GqlgenVerif.Props.C17Pkg", "GqlgenVerif.Props.C17Embed", "GqlgenVerif.Props.C17Root"])
+    ok_extract = ctx.extract("Keywords", "TypeRefRules", "FuncSyntaxArms", "PkgNameRules", "EmbedRule", "ExecLayoutTwins", "BuildGuards", "DirArgRule")
+    proved = ok_extract and ctx.prove(props=["GqlgenVerif.Props.C17", "GqlgenVerif.Props.C17Pkg", "GqlgenVerif.Props.C17Embed", "GqlgenVerif.Props.C17Root",
+                                            "GqlgenVerif.Props.C17Files", "GqlgenVerif.Props.C17DirArgs"])
     if ok_extract and not proved:
         ctx.cov["proof_failure"] = ctx.proof_failure
     timings["extract_and_prove"] = round(time.time() - t0, 1)
@@ -449,6 +555,51 @@ def run(ctx):
                 rep["replay"] = txt
                 ctx.violation(rep, no_failing_input=not same)
                 found = True
+            # the regenerated passes of generatePerSchema: a pass whose loop body can dereference a nil build, and a
+            # distribution of definitions over schema files for which the model over the regenerated steps panics
+            ps = ctx.driver("c17", ["passsafe"])[0]
+            for item in ps.split(" "):
+                name, _, verdict = item.partition("=")
+                if verdict in ("safe", ""):
+                    continue
+                pass_name, field = (name.split(":") + ["?"])[:2]
+                grid = {"Objects": "persch schema,extra,prelude - - schema,prelude", "Inputs": "persch schema,prelude schema,inputs - schema,inputs,prelude",
+                        "Interfaces": "persch schema,prelude - abstract schema,abstract,prelude", "ReferencedTypes": "persch schema,prelude - - schema,enums,prelude"}
+                mo = ctx.driver("c17", [grid.get(field, grid["Interfaces"])])[0]
+                fail = next((x for x in failed_inputs if x.get("class") == "per-schema-build-missing"), None) or next((x for x in failed_inputs if x["project"].startswith("c17f")), None)
+                rep = {"kind": "proof", "failing": ctx.proof_failure, "pass": pass_name, "ranges_over": "data." + field, "model_on_regenerated_steps": mo,
+                       "shape": {"stage": "per-schema-files", "class": "per-schema-build-missing", "pass": pass_name}}
+                txt = "exec layout follow-schema: the loop body of codegen.%s (codegen/generate.go) uses the build of a schema file although it can still be nil (%s): e.g. schema.graphqls with the objects + a file that holds only what data.%s ranges over -> %s (theorem every_pass_reaches_a_build over Gen/BuildGuards.lean)" % (
+                    pass_name, verdict, field, mo)
+                if fail:
+                    rep["input"] = fail["input"]
+                    txt += "; the real generator does the same: project %s (go/genout/c17/%s, files in `input`): %s" % (fail["project"], fail["project"], fail["error"][:300])
+                rep["replay"] = txt
+                ctx.violation(rep, no_failing_input=not fail)
+                found = True
+            # the regenerated ResolveArgs / implDirectives: a definition default x use for which the closure the model
+            # assembles from the regenerated facts names a local it does not declare (or declares one it does not pass)
+            combos = [(d, u) for d in "nzv" for u in "ozv"]
+            douts = ctx.driver("c17", ["dirarg %s %s" % c for c in combos])
+            dname = {"n": "no default", "z": "the default `= null`", "v": "a default value"}
+            uname = {"o": "the argument left out", "z": "the argument given as `null`", "v": "the argument given"}
+            bad = [(c, o) for c, o in zip(combos, douts) if "ok=1" not in o]
+            if bad:
+                fail = next((x for x in failed_inputs if x.get("class") == "directive-argument-local-mismatch"), None)
+                (d, u), o = bad[0]
+                f = dict(x.split("=", 1) for x in o.split(" ") if "=" in x)
+                rep = {"kind": "proof", "failing": ctx.proof_failure, "failing_definition_default_x_use": ["%s / %s" % (dname[a], uname[b]) for (a, b), _ in bad],
+                       "model_on_regenerated_rules": o,
+                       "shape": {"stage": "directive-arguments", "class": "directive-argument-local-mismatch", "definition_default_and_use": sorted("%s.%s" % c for c, _ in bad)}}
+                txt = "a runtime directive whose argument has %s in its definition, applied with %s (`directive @limit(max: Int%s)`, `field: T @limit%s`): the regenerated ResolveArgs passes `%s`, the regenerated implDirectives chain declares %s (theorems passed_local_iff_declared / directive_closure_matches_effective_value over Gen/DirArgRule.lean)" % (
+                    dname[d], uname[u], {"n": "", "z": " = null", "v": " = 100"}[d], {"o": "", "z": "(max: null)", "v": "(max: 5)"}[u],
+                    f.get("passed", "?") + ("max" if f.get("passed") != "nil" else ""), "no local" if f.get("declared_m") == "none" else "`%smax` from the %s value" % tuple(f.get("declared_m", "?:?").split(":")))
+                if fail:
+                    rep["input"] = fail["input"]
+                    txt += "; failing input: project %s (go/genout/c17/%s, files in `input`): %s" % (fail["project"], fail["project"], fail["error"][:300])
+                rep["replay"] = txt
+                ctx.violation(rep, no_failing_input=not fail)
+                found = True
             # the regenerated NameForDir / SanitizePackageName: a directory name x state for which the MODEL over the
             # regenerated definitions derives something that cannot stand in a package clause
             derived = [r for r in pkg_rows if not state_has_clause(r[4])]
@@ -619,7 +770,9 @@ def run_sweep(ctx, have_model, branch, nontriv):
                                      "-rootrefs", "-rootcorpus", os.path.join(vf.VERIF, "corpus", "C17", "rootrefs.txt"),
                                      "-layouts", "-layoutcorpus", os.path.join(vf.VERIF, "corpus", "C17", "layouts.txt"),
                                      "-inputres", "-inputcorpus", os.path.join(vf.VERIF, "corpus", "C17", "inputres.txt"),
-                                     "-schemalocs", "-loccorpus", os.path.join(vf.VERIF, "corpus", "C17", "schemalocs.txt")])
+                                     "-schemalocs", "-loccorpus", os.path.join(vf.VERIF, "corpus", "C17", "schemalocs.txt"),
+                                     "-filekinds", "-filecorpus", os.path.join(vf.VERIF, "corpus", "C17", "filekinds.txt"),
+                                     "-dirargs", "-dirargcorpus", os.path.join(vf.VERIF, "corpus", "C17", "dirargs.txt")])
     if rc != 0:
         raise RuntimeError("harness schemas failed: " + se[-2000:])
     projects = [l.split("\t")[1] for l in so.split("\n") if l.startswith("project\t")]
@@ -702,7 +855,7 @@ def run_sweep(ctx, have_model, branch, nontriv):
 
     decl_out = {}
     with ThreadPoolExecutor(max_workers=8) as ex:
-        for p, (rc, so, se) in ex.map(decls, [p for p in ok if p not in build_fail and not p.endswith("ab") and not p.startswith(("c17b", "c17l", "c17i", "c17s"))]):
+        for p, (rc, so, se) in ex.map(decls, [p for p in ok if p not in build_fail and not p.endswith("ab") and not p.startswith(("c17b", "c17l", "c17i", "c17s", "c17f", "c17a"))]):
             if rc != 0:
                 raise RuntimeError("harness decls failed for %s: %s" % (p, (so + se)[-1500:]))
             d = dict(l.split("\t", 1) for l in so.split("\n") if "\t" in l)
@@ -749,6 +902,9 @@ def run_sweep(ctx, have_model, branch, nontriv):
 
     embeds = run_schema_embeds(ctx, have_model, root, [p for p in projects if p.startswith(("c17l", "c17s"))], branch, nontriv)
 
+    file_builds = run_file_builds(ctx, have_model, root, [p for p in projects if p.startswith("c17f")], results, build_fail, branch, nontriv)
+    dir_args = dirarg_stats(root, [p for p in projects if p.startswith("c17a")], results, build_fail, branch)
+
     classes = Counter()
     samples = []
     failed_inputs = []
@@ -759,6 +915,7 @@ def run_sweep(ctx, have_model, branch, nontriv):
         rc, se = results[p]
         branch["sweep:" + ("directed" if p.startswith("c17d") else "bindings" if p.startswith("c17b") else "root-typed-fields" if p.startswith("c17t") else "layout" if p.startswith("c17l")
                            else "input-field-resolvers" if p.startswith("c17i") else "schema-locations" if p.startswith("c17s")
+                           else "file-contents" if p.startswith("c17f") else "directive-arguments" if p.startswith("c17a")
                            else "autobind-no-models" if p.endswith("ab") else "random")] += 1
         nontriv.add("p" + p)
         yml_p = read(os.path.join(root, p, "gqlgen.yml"))
@@ -787,6 +944,12 @@ def run_sweep(ctx, have_model, branch, nontriv):
         if p.startswith("c17i"):
             files["inputshapes.tsv"] = read(os.path.join(d, "inputshapes.tsv"))
             shape["input_resolvers"] = input_shape(d)
+        if p.startswith("c17f"):
+            files["filekinds.tsv"] = read(os.path.join(d, "filekinds.tsv"))
+            fkm = read_filekinds(d) or {}
+            shape["file_contents"] = {"exec_layout": fkm.get("layout"), "content_classes": fkm.get("classes", "").split()}
+        if p.startswith("c17a"):
+            files["dirargs.tsv"] = read(os.path.join(d, "dirargs.tsv"))
         if p.startswith(("c17l", "c17s")):
             # the project is more than its root: schema files and pre-existing Go files live in the output directories
             files = project_tree(d)
@@ -838,7 +1001,7 @@ def run_sweep(ctx, have_model, branch, nontriv):
             "generated_and_typechecked": classes["ok"], "outcome_classes": dict(classes),
             "declared_identifier_comparisons": emit_cmp, "declared_identifiers_compared": emit_idents,
             "failure_samples": samples, "bindings": binding, "layouts": layouts, "failed_inputs": failed_inputs,
-            "timings": tm, "schema_locations": embeds, "input_field_resolvers": input_resolver_stats(root, projects, results, build_fail),
+            "timings": tm, "schema_locations": embeds, "file_contents": file_builds, "directive_arguments": dir_args, "input_field_resolvers": input_resolver_stats(root, projects, results, build_fail),
             "root_typed_fields": dict(rootref, distinct_shapes_method_syntax=len([1 for (sh, f) in rootref_shapes if not f]),
                                       distinct_shapes_function_syntax=len([1 for (sh, f) in rootref_shapes if f])),
             "note": "sampled support for the first sentence of C17, not proof"}
@@ -903,6 +1066,80 @@ def input_resolver_stats(root, projects, results, build_fail):
             if marked:
                 cells["random-projects-with-an-input-field-resolver"] += 1
     return {"projects": n, "by_layout_and_flavour": dict(cells), "distinct_shapes_by_layout_and_flavour": {k: len(v) for k, v in shapes.items()}}
+
+
+def run_file_builds(ctx, have_model, root, projs, results, build_fail, branch, nontriv):
+    """File-contents projects (filekinds.tsv: c17f*): under exec layout follow-schema the set of `<name>.generated.go`
+    files the generator wrote against Model/Builds.lean over the regenerated passes (driver op `persch`); Spec `chkfiles`:
+    exactly the schema files that declare an object, an input, an interface / union or a referenced definition (+ the
+    prelude) get a file."""
+    cells = Counter()
+    compared = divergences = 0
+    lines, refs = [], []
+    for p in projs:
+        d = os.path.join(root, p)
+        fk = read_filekinds(d)
+        if not fk:
+            continue
+        for f in fk["files"]:
+            cells["%s/%s" % (fk.get("layout"), f[1])] += 1
+            branch["file-contents:%s:%s" % (fk.get("layout"), f[1])] += 1
+            nontriv.add("fk:%s:%s:%s" % (fk.get("layout"), f[1], fk.get("flavour")))
+        if fk.get("layout") != "follow-schema" or results[p][0] != 0:
+            continue
+        tmpl = fk.get("template", "{name}.generated.go")
+        pre, suf = tmpl.split("{name}")
+        impl = sorted(fn[len(pre):len(fn) - len(suf)] for fn in os.listdir(d)
+                      if fn.startswith(pre) and fn.endswith(suf) and fn != "root_.generated.go" and len(fn) > len(pre) + len(suf))
+        col = {k: ["prelude"] if k in "or" else [] for k in "oiar"}
+        for fn, cls, fl in fk["files"]:
+            base = os.path.splitext(fn)[0]
+            for k, bit in zip("oiar", fl):
+                if bit == "1":
+                    col[k].append(base)
+        j = lambda xs: ",".join(xs) if xs else "-"
+        args = " ".join(j(col[k]) for k in "oiar")
+        lines += ["persch " + args, "chkfiles %s %s" % (args, j(impl))]
+        refs.append((p, fk, impl))
+    if have_model and lines:
+        outs = ctx.driver("c17", lines)
+        for k, (p, fk, impl) in enumerate(refs):
+            mo, sv = outs[2 * k], outs[2 * k + 1]
+            compared += 1
+            d = os.path.join(root, p)
+            files = {f: read(os.path.join(d, f)) for f in sorted(os.listdir(d)) if f.endswith(".graphql") or f in ("gqlgen.yml", "filekinds.tsv")}
+            shape = {"stage": "per-schema-files", "exec_layout": "follow-schema", "content_classes": fk.get("classes", "").split()}
+            if sv != "ok":
+                shape["class"] = "generated-files-differ-from-the-schema-files-that-declare-something"
+                ctx.violation({"kind": "spec", "project": p, "verdict": sv, "generated_files": impl, "shape": shape, "input": files,
+                               "replay": "project %s (go/genout/c17/%s, files in `input`), exec layout follow-schema: the generator wrote %s; %s (Spec: one <name> file per schema file that declares an object, an input, an interface / union or a referenced definition)" % (
+                                   p, p, [fk.get("template", "{name}.generated.go").replace("{name}", x) for x in impl], sv)})
+            elif not mo.startswith("files=") or set(x for x in mo[6:].split(",") if x != "-") != set(impl):
+                divergences += 1
+                ctx.violation({"kind": "correspondence", "what": "per-schema-file builds", "project": p, "model": mo, "generated_files": impl,
+                               "replay": "project %s: Model/Builds.lean over Gen/BuildGuards.lean says %s, the generator wrote %s" % (p, mo, impl)}, no_failing_input=True)
+    return {"projects": len(projs), "follow_schema_file_sets_compared": compared, "divergences": divergences,
+            "files_by_layout_and_content_class": dict(cells)}
+
+
+def dirarg_stats(root, projs, results, build_fail, branch):
+    """which (location, kind, default, use) shapes met which exec layout x template flavour (evidence)"""
+    shapes = {}
+    cells = Counter()
+    for p in projs:
+        da = read_dirargs(os.path.join(root, p))
+        if not da:
+            continue
+        key = "%s/%s" % (da.get("layout"), da.get("flavour"))
+        shapes.setdefault(key, set()).update(da.get("shapes", "").split())
+        for sh in da.get("shapes", "").split():
+            f = sh.split(".")
+            cells["%s:default-%s:use-%s" % (f[0], f[2], f[3] if f[1] != "multi" else "multi")] += 1
+            branch["directive-arguments:%s:default-%s:use-%s" % (f[0], f[2], f[3] if f[1] != "multi" else "multi")] += 1
+    allsh = set().union(*shapes.values()) if shapes else set()
+    return {"projects": len(projs), "distinct_shapes": len(allsh), "distinct_shapes_by_layout_and_flavour": {k: len(v) for k, v in shapes.items()},
+            "distinct_kind_default_use_triples": len({".".join(x.split(".")[1:]) for x in allsh}),
+            "location_default_use_cells": len(cells)}
 
 
 def run_schema_embeds(ctx, have_model, root, projs, branch, nontriv):
